@@ -49,7 +49,8 @@ def compact(events):
     return out
 
 
-HOSTS = [("fe80::1", True), ("fe80::1", False), ("fe80::2", False), ("2001:db8::9", False)]
+# (the unspecified address is a legitimate source of solicitations: it is a sender like any other)
+HOSTS = [("fe80::1", True), ("fe80::1", False), ("fe80::2", False), ("2001:db8::9", False), ("::", True), ("::", False)]
 _P = lambda pfx, valid, pref, onlink=True, auto=True: {"k": "prefix", "pfx": pfx, "valid": valid, "pref": pref, "onlink": onlink, "auto": auto}
 PFX = [_P("2001:db8::/64", 86400, 14400), _P("2001:db8::/64", 100, 0), _P("2001:db8:1::/64", -1, -1, False, True),
        _P("2001:db8:2::/56", 0, 0, True, False), _P("fd00::/48", 2592000, 604800),
@@ -86,7 +87,7 @@ def c18(pid, tier, replay):
         # bounded-exhaustive: every ordered pair of messages from a small pool (same / different hosts,
         # zero and non-zero lifetimes, repeated identical RA at a later time), then random longer sequences
         pool = []
-        for host, zone in HOSTS[:3]:
+        for host, zone in HOSTS[:3] + HOSTS[4:5]:
             for life in (0, 1800):
                 for opts in ([], [PFX[0]], [PFX[1], PFX[2]], [PFX[5]], [PFX[6], PFX[0]]):
                     pool.append({"op": "msg", "kind": "ra", "src": host, "zone": zone, "wire": True,
